@@ -26,6 +26,38 @@ CHECKS = {
         technique='history monitor: every read site of one analysed module is queried under permutations / forward / reverse / inside-out / repeated histories and as part of lint(), each answer compared with the first-query answer on a fresh analysis; request histories on one Project vs fresh Projects',
         text='Answers (alternatives of the identifier as binding sites, set of visible names, lint resolution, request replies) observed under many query histories on one analysis state must equal the answer the same site gets as first query on a fresh analysis. Complete over all permutations for tiny modules (<= 6 reads), sampled otherwise.',
         design='3/C04', engine=''),
+    'C05': dict(
+        technique='differential runtime monitor: for every identifier read of real stdlib/repo files and deep-scoping generated modules, the owner scope of each alternative the real extractor returns is compared with the compiler symbol table (symtable), cross-checked against the load instruction the compiler emitted',
+        text='Every read whose resolution supp returns is compared with CPython\'s own symbol table for the same source; a binding owned by a scope other than the compiler\'s is a violation with the file text as witness. Both named sub-claims are counted separately.',
+        design='3/C05', engine=''),
+    'C06': dict(
+        technique='differential runtime monitor: generated class-hierarchy projects are imported and inspected by a child CPython (MRO, vars(), instance __dict__ after calling every method); assist()/location() of the real library on the same files are compared with it',
+        text='For every query expression of the generated projects the proposals must contain every source-defined attribute the real object has and go-to-definition must land on the definition Python\'s lookup selects, as observed in a real interpreter.',
+        design='3/C06', engine=''),
+    'C07': dict(
+        technique='differential runtime monitor: Project.get_module / norm_package / assist on import lines run on generated multi-root package trees and compared with importlib (PathFinder walk, resolve_name, pkgutil), the walk itself cross-checked by real imports in a child interpreter',
+        text='For every dotted and relative name of every generated tree and roots order the file supp analyses, the ImportError cases and the sub-module proposals must agree with what importlib finds for roots + sys.path.',
+        design='3/C07', engine=''),
+    'C09': dict(
+        technique='history monitor: edit/request histories on a temp project are applied to one long-lived Project; every request under check_changes() is compared with the same request on a Project created at that moment; exhaustive over short histories on two fixed import chains, random long histories on random projects',
+        text='After every enumerated or generated history of create/rewrite/touch operations (mtimes strictly increasing) each request on the long-lived project must equal the fresh project\'s answer; complete for all histories up to the stated length on the fixed chains.',
+        design='3/C09', engine=''),
+    'C11': dict(
+        technique='runtime monitor with a text oracle: every position reported by lint(), location() and the module binding enumeration is checked against the tokenised text (must start the NAME token of the identifier, or the except keyword), on real files and generated layouts',
+        text='Every reported binding position on the real files and the generated layouts (continuations, comments, tabs, form feeds, aliases equal to module names, multi-line imports, several statements per line) must point at the identifier token, and all entry points must agree.',
+        design='3/C11', engine=''),
+    'C12': dict(
+        technique='differential runtime monitor: assist() at sampled and spliced cursor positions compared with a regex prefix oracle and with a second, unmarked analysis of the same text (names_at keys / attr_list of the evaluated expression)',
+        text='At every sampled cursor the prefix must be the identifier run left of the cursor, proposals sorted/unique/identifiers/without the marker, and equal to what the unmarked analysis makes visible there.',
+        design='3/C12', engine=''),
+    'C13': dict(
+        technique='metamorphic runtime monitor: each text is re-rendered by a layout-only printer (AST identity checked per pair) and the real lint()/names_at answers of both layouts are compared through identifier-token ordinals',
+        text='For every pair of AST-identical layouts (ast.unparse normal form and random re-layouts) of real files and generated programs, diagnostics and visible names/alternatives at corresponding reads must be equal.',
+        design='3/C13', engine=''),
+    'C16': dict(
+        technique='controlled-scheduler runtime monitor: the real Environment code runs on real threads under a line-granularity cooperative scheduler (sys.settrace) with fake Popen/Client counting launches; stateless DFS over schedules with sleep sets and preemption bounds, random/PCT schedules; plus real-subprocess runs for close/disconnect/launch failure',
+        text='Every explored interleaving of prepare()/call/close() scripts of up to three threads must launch exactly one server per session, raise no handshake exception, answer every call and not deadlock; real child processes must exit after close() and after the client end disappears. Exhaustive for 1- and 2-client scripts (up to reordering of independent steps).',
+        design='3/C16', engine=''),
     'C10': dict(
         technique='differential runtime monitor: lint() output on generated modules (binding-kind x scope-kind x name-shape matrix with a random never-read subset) and real files compared with a purely syntactic reference of the W01/W02 exemption rules',
         text='For every binding whose identifier has no read occurrence in the file, the real lint() must report it iff the syntactic rule says so, once, with the right code and message; the matrix cells covered are counted in the evidence.',
